@@ -52,7 +52,8 @@ def gen_cases(tier, seed):
     for i in range(n):
         version = rng.choice(["1.6", "2.0.1"])
         slow = rng.random() < 0.6
-        hb = g.route("Heartbeat", ("ret", {"current_time": "t"}), is_async=slow, after=("ret",) if rng.random() < 0.5 else None,
+        hb = g.route("Heartbeat", ("ret", {"current_time": "t"}), is_async=rng.choice([True, "future", "awaitable"]) if slow else False,
+                     after=("ret",) if rng.random() < 0.5 else None,
                      after_async=rng.random() < 0.5)
         if slow:
             hb["on"]["sleep"] = 0.003
